@@ -777,3 +777,94 @@ func dmRootErr(err error) error {
 		err = ne.err
 	}
 }
+
+// ---------------------------------------------------------------------------
+// Builder
+
+// dmBuild feeds m through a Builder.
+func dmBuild(m *Message, prefix int, compress, startEmpty bool) ([]byte, error) {
+	buf := make([]byte, prefix, prefix+64)
+	for i := range buf {
+		buf[i] = 0xC0 // looks like a pointer: must never be interpreted
+	}
+	b := NewBuilder(buf, m.Header)
+	if compress {
+		b.EnableCompression()
+	}
+	if len(m.Questions) > 0 || startEmpty {
+		if err := b.StartQuestions(); err != nil {
+			return nil, fmt.Errorf("StartQuestions: %v", err)
+		}
+	}
+	for i := range m.Questions {
+		if err := b.Question(m.Questions[i]); err != nil {
+			return nil, fmt.Errorf("Question %d: %v", i, err)
+		}
+	}
+	secs := []struct {
+		name  string
+		start func() error
+		rs    []Resource
+	}{
+		{"Answers", b.StartAnswers, m.Answers},
+		{"Authorities", b.StartAuthorities, m.Authorities},
+		{"Additionals", b.StartAdditionals, m.Additionals},
+	}
+	for _, s := range secs {
+		if len(s.rs) > 0 || startEmpty {
+			if err := s.start(); err != nil {
+				return nil, fmt.Errorf("Start%s: %v", s.name, err)
+			}
+		}
+		for i := range s.rs {
+			h := s.rs[i].Header
+			var err error
+			switch body := s.rs[i].Body.(type) {
+			case *AResource:
+				err = b.AResource(h, *body)
+			case *AAAAResource:
+				err = b.AAAAResource(h, *body)
+			case *NSResource:
+				err = b.NSResource(h, *body)
+			case *CNAMEResource:
+				err = b.CNAMEResource(h, *body)
+			case *SOAResource:
+				err = b.SOAResource(h, *body)
+			case *PTRResource:
+				err = b.PTRResource(h, *body)
+			case *MXResource:
+				err = b.MXResource(h, *body)
+			case *TXTResource:
+				err = b.TXTResource(h, *body)
+			case *SRVResource:
+				err = b.SRVResource(h, *body)
+			case *SVCBResource:
+				err = b.SVCBResource(h, *body)
+			case *HTTPSResource:
+				err = b.HTTPSResource(h, *body)
+			case *OPTResource:
+				err = b.OPTResource(h, *body)
+			case *UnknownResource:
+				err = b.UnknownResource(h, *body)
+			default:
+				err = fmt.Errorf("unexpected body %T", body)
+			}
+			if err != nil {
+				return nil, fmt.Errorf("%s[%d] (%T): %v", s.name, i, s.rs[i].Body, err)
+			}
+		}
+	}
+	out, err := b.Finish()
+	if err != nil {
+		return nil, fmt.Errorf("Finish: %v", err)
+	}
+	if len(out) < prefix+headerLen {
+		return nil, fmt.Errorf("Finish returned %d bytes for a prefix of %d", len(out), prefix)
+	}
+	for i := 0; i < prefix; i++ {
+		if out[i] != 0xC0 {
+			return nil, fmt.Errorf("Builder changed byte %d of the caller's prefix", i)
+		}
+	}
+	return out[prefix:], nil
+}
